@@ -557,64 +557,82 @@ def rebuild_case(l):
 
 
 def run_cases(ctx, cases, exes, drv, flavours):
-    inp = ("\n".join(c[0] for c in cases) + "\n").encode()
     outs = {}
     for fl, exe in exes.items():
-        rc, out, err = sh2([exe], input=inp, timeout=3000)
-        lines = out.decode().split("\n")
-        if lines and lines[-1] == "":
-            lines.pop()
-        if rc != 0 or len(lines) < len(cases):
-            idx = min(len(lines), len(cases) - 1)
-            ctx.violation("implementation crashed/aborted (%s build, rc=%d) on case %d: %s" % (fl, rc, idx, err[-300:]),
-                          {"case": cases[idx][0], "flavour": fl, "stderr": err[-2000:]},
-                          signature="crash:" + cases[idx][1])
-            lines += ["<no output>"] * (len(cases) - len(lines))
+        lines = []
+        crashes = 0
+        while len(lines) < len(cases):
+            rest = cases[len(lines):]
+            rc, out, err = sh2([exe], input=("\n".join(c[0] for c in rest) + "\n").encode(), timeout=3000)
+            got = out.decode().split("\n")
+            got.pop()                       # "" after the final newline, or a partial line cut by a crash
+            lines += got[:len(rest)]
+            if len(lines) < len(cases):
+                # the harness died on case len(lines): report it, mark it, continue after it
+                idx = len(lines)
+                ctx.violation("implementation crashed/aborted (%s build, rc=%d) on case %d: %s" % (fl, rc, idx, err[-300:]),
+                              {"case": cases[idx][0], "flavour": fl, "stderr": err[-2000:]},
+                              signature="crash:" + cases[idx][1])
+                lines.append("<crash>")
+                crashes += 1
+                if crashes >= 8:
+                    lines += ["<crash>"] * (len(cases) - len(lines))
         outs[fl] = lines
         ctx.log("harness %s: %d cases" % (fl, len(cases)))
     ref = outs[flavours[0]]
 
-    # ---- model lines ----
-    mlines_in = []      # (case index, cfg index, line, scans)
+    # ---- model lines: one per distinct JPEG (the builds normally emit identical bytes) ----
+    mlines_in = []      # (key, line, scans)
+    seen = set()
     for i, (line, kind, im, cfgs) in enumerate(cases):
         if im is None:
-            mlines_in.append((i, -1, line, None))
+            mlines_in.append(((i, -1, ""), line, None))
             continue
-        parts = ref[i].split(" | ")
-        for j, p in enumerate(parts):
-            if p.startswith("ok "):
-                ml = model_line(im, bytes.fromhex(p.split()[1]))
-                if ml:
-                    mlines_in.append((i, j, ml[0], ml[1]))
+        for fl in flavours:
+            if outs[fl][i] == "<crash>":
+                continue
+            for j, p in enumerate(outs[fl][i].split(" | ")):
+                if p.startswith("ok "):
+                    hx = p.split()[1]
+                    key = (i, j, hx)
+                    if key in seen:
+                        continue
+                    seen.add(key)
+                    ml = model_line(im, bytes.fromhex(hx))
+                    if ml:
+                        mlines_in.append((key, ml[0], ml[1]))
     mout = None
     if drv and mlines_in:
         rc, out, err = sh2("ulimit -s 4000000 2>/dev/null || ulimit -s unlimited 2>/dev/null; exec %s" % drv,
-                           input=("\n".join(m[2] for m in mlines_in) + "\n").encode(), timeout=3000)
+                           input=("\n".join(m[1] for m in mlines_in) + "\n").encode(), timeout=3000)
         mo = out.decode().split("\n")
         ctx.log("model driver: %d lines" % len(mlines_in))
         if rc != 0 or len(mo) < len(mlines_in):
             ctx.broken_tie("model-driver", "extracted model failed: rc=%d after %d of %d lines: %s" % (rc, len(mo) - 1, len(mlines_in), err[-200:]))
         else:
-            mout = {(m[0], m[1]): (mo[k], m[3]) for k, m in enumerate(mlines_in)}
+            mout = {m[0]: (mo[k], m[2]) for k, m in enumerate(mlines_in)}
 
     disagree = 0
     nscans_checked = 0
+    checked_keys = set()
     for i, (line, kind, im, cfgs) in enumerate(cases):
         impl = ref[i]
         for fl in flavours[1:]:
             # pixel hashes are compared within a build only: SIMD and scalar IDCT may legitimately differ on
             # coefficients that no forward DCT produces (that is C05's subject), the coded BYTES may not
-            if strip_px(outs[fl][i]) != strip_px(impl):
+            if impl != "<crash>" and outs[fl][i] != "<crash>" and strip_px(outs[fl][i]) != strip_px(impl):
                 ctx.violation("builds disagree (%s vs %s): different bytes / result for the same coefficients and settings" % (flavours[0], fl),
                               {"case": line, flavours[0]: impl[:2000], fl: outs[fl][i][:2000]}, signature="build-disagree:" + kind)
         if im is None:
             # ---------------- scan script: property-level + model
+            if impl == "<crash>":
+                continue
             if kind.endswith("valid-complete") or kind.endswith("seq-valid"):
                 if not impl.startswith("ok"):
                     ctx.violation("validate_script rejects a script built by the successive-approximation grammar: " + impl,
                                   {"case": line, "impl": impl}, signature="script-valid-rejected")
             if mout is not None:
-                m = mout[(i, -1)][0]
+                m = mout[(i, -1, "")][0]
                 if m != impl:
                     disagree += 1
                     if disagree <= 3:
@@ -622,60 +640,69 @@ def run_cases(ctx, cases, exes, drv, flavours):
                     ctx.broken_tie("correspondence:script", "validate_script model=%s impl=%s on %s" % (m, impl, line[:300]))
             ctx.count(kind.split("+")[0], 1, ("script", line))
             continue
-        # ---------------- image: property-level oracle on every variant
-        parts = impl.split(" | ")
-        pxs = {}
-        for j, p in enumerate(parts):
-            fam, cfg = cfgs[j] if j < len(cfgs) else ("?", "?")
-            rep = {"case": "img %s | %s | %s | %s" % (im.head(), im.samp_s(), " ".join(im.entries),
-                                                     " ; ".join(c for _, c in cfgs[:j + 1])), "variant": cfg, "impl": p[-300:]}
-            if not p.startswith("ok "):
-                ctx.violation("writing in-range coefficients failed under '%s': %s" % (cfg[:160], p[:80]), rep,
-                              signature="write-error:%s:%s" % (fam, p.split()[1] if len(p.split()) > 1 else "?"))
+        # ---------------- image: property-level oracle on every variant, in every build
+        for fl in flavours:
+            if outs[fl][i] == "<crash>":
                 continue
-            f = p.split()
-            rb, w, px = f[2], f[3], f[4]
-            if rb != "rb=1":
-                ctx.violation("coefficients changed by entropy coding under '%s': %s (c,block,k:got/expected)" % (cfg[:160], rb), rep,
-                              signature="coef-mismatch:%s" % fam)
-            elif w != "w=0":
-                ctx.violation("decoder warns on the library's own output under '%s' (%s)" % (cfg[:160], w), rep, signature="warn:%s" % fam)
-            pxs.setdefault(px, []).append(cfg)
-            ctx.count("variant-" + fam, 1, (kind, f[1][-64:]))
-            # ---- model correspondence
-            if mout is not None and (i, j) in mout:
-                mo, scans = mout[(i, j)]
-                if " | D" not in mo:
-                    disagree += 1
-                    ctx.broken_tie("correspondence:driver", "driver output malformed: %s on %s" % (mo[:100], cfg[:160]))
+            parts = outs[fl][i].split(" | ")
+            pxs = {}
+            for j, p in enumerate(parts):
+                fam, cfg = cfgs[j] if j < len(cfgs) else ("?", "?")
+                rep = {"case": "img %s | %s | %s | %s" % (im.head(), im.samp_s(), " ".join(im.entries),
+                                                         " ; ".join(c for _, c in cfgs[:j + 1])),
+                       "variant": cfg, "impl": p[-300:], "flavour": fl}
+                if not p.startswith("ok "):
+                    ctx.violation("writing in-range coefficients failed under '%s' (%s build): %s" % (cfg[:160], fl, p[:80]), rep,
+                                  signature="write-error:%s:%s" % (fam, p.split()[1] if len(p.split()) > 1 else "?"))
                     continue
-                es, d = mo.split(" | D")
-                es = [e.strip() for e in es.split(" ; ")]
-                bad = None
-                for sidx, s in enumerate(scans):
-                    nscans_checked += 1
-                    exp = "E " + bytes(s["data"]).hex()
-                    got = es[sidx] if sidx < len(es) else "E <missing>"
-                    if got != exp:
-                        bad = "model encoder differs from real bytes in scan %d (comps=%s Ss=%d Se=%d Ah=%d Al=%d ri=%d): model=%s.. real=%s.." % (
-                            sidx, [c[0] for c in s["comps"]], s["Ss"], s["Se"], s["Ah"], s["Al"], s["ri"], got[:60], exp[:60])
-                        break
-                if bad is None and d.strip() != im.expected_sparse():
-                    bad = "model decoder does not recover the input coefficients from the real bytes (%s)" % d.strip()[:80]
-                if bad:
-                    disagree += 1
-                    if disagree <= 3:
-                        ctx.log("model/impl disagree:", bad, "\n  cfg:", cfg[:300])
-                    if rb == "rb=1":
-                        ctx.broken_tie("correspondence:" + fam, bad + " || cfg=" + cfg + " || case=" + rep["case"][:1500])
-        for fl in flavours[1:]:
-            opx = set(t for t in outs[fl][i].split(" ") if t.startswith("px="))
-            if len(opx) > 1:
-                ctx.violation("variants of the same coefficients decode to different pixels (%s build): %s" % (fl, sorted(opx)),
-                              {"case": line, "flavour": fl}, signature="pixel-mismatch:" + kind)
-        if len(pxs) > 1:
-            ctx.violation("variants of the same coefficients decode to different pixels: %s" % {k: [x[:80] for x in v[:2]] for k, v in pxs.items()},
-                          {"case": line, "pixels": {k: v for k, v in pxs.items()}}, signature="pixel-mismatch:" + kind)
+                f = p.split()
+                rb, w, px = f[2], f[3], f[4]
+                if rb != "rb=1":
+                    ctx.violation("coefficients changed by entropy coding under '%s' (%s build): %s (c,block,k:got/expected)" % (cfg[:160], fl, rb),
+                                  rep, signature="coef-mismatch:%s" % fam)
+                elif w != "w=0":
+                    ctx.violation("decoder warns on the library's own output under '%s' (%s build, %s)" % (cfg[:160], fl, w), rep,
+                                  signature="warn:%s" % fam)
+                if not px.startswith("px=error"):
+                    pxs.setdefault(px, []).append(cfg)
+                elif px != "px=error:FRACT_SAMPLE_NOTIMPL":    # documented limitation of jdsample.c, not an entropy matter
+
+                    ctx.violation("pixel decoding of the library's own output fails under '%s' (%s build): %s" % (cfg[:160], fl, px), rep,
+                                  signature="pixel-error:%s" % fam)
+                if fl == flavours[0]:
+                    ctx.count("variant-" + fam, 1, (kind, f[1][-64:]))
+                # ---- model correspondence (once per distinct JPEG)
+                key = (i, j, f[1])
+                if mout is not None and key in mout and key not in checked_keys:
+                    checked_keys.add(key)
+                    mo, scans = mout[key]
+                    if " | D" not in mo:
+                        disagree += 1
+                        ctx.broken_tie("correspondence:driver", "driver output malformed: %s on %s" % (mo[:100], cfg[:160]))
+                        continue
+                    es, d = mo.split(" | D")
+                    es = [e.strip() for e in es.split(" ; ")]
+                    bad = None
+                    for sidx, sc in enumerate(scans):
+                        nscans_checked += 1
+                        exp = "E " + bytes(sc["data"]).hex()
+                        got = es[sidx] if sidx < len(es) else "E <missing>"
+                        if got != exp:
+                            bad = "model encoder differs from real bytes (%s build) in scan %d (comps=%s Ss=%d Se=%d Ah=%d Al=%d ri=%d): model=%s.. real=%s.." % (
+                                fl, sidx, [c[0] for c in sc["comps"]], sc["Ss"], sc["Se"], sc["Ah"], sc["Al"], sc["ri"], got[:60], exp[:60])
+                            break
+                    if bad is None and d.strip() != im.expected_sparse():
+                        bad = "model decoder does not recover the input coefficients from the real bytes (%s build): %s" % (fl, d.strip()[:80])
+                    if bad:
+                        disagree += 1
+                        if disagree <= 3:
+                            ctx.log("model/impl disagree:", bad, "\n  cfg:", cfg[:300])
+                        if rb == "rb=1":
+                            ctx.broken_tie("correspondence:" + fam, bad + " || cfg=" + cfg + " || case=" + rep["case"][:1500])
+            if len(pxs) > 1:
+                ctx.violation("variants of the same coefficients decode to different pixels (%s build): %s" % (
+                              fl, {k: [x[:80] for x in v[:2]] for k, v in pxs.items()}),
+                              {"case": line, "flavour": fl, "pixels": {k: v for k, v in pxs.items()}}, signature="pixel-mismatch:" + kind)
         ctx.count(kind, 1, (kind, impl[-80:]))
         if i % 37 == 0:
             ctx.sample({"case": line[:300], "impl": impl[-200:]})
